@@ -135,6 +135,15 @@ func (e *ixEngine) Generate(seed uint64, tier string, run int) (json.RawMessage,
 		}
 		return ixPath(rg)
 	}
+	if rk.Chance(0.85) {
+		// a valid font that no later mutation names, inside the first scan root: without one the
+		// scan ends with "no valid font" in both modes and the boot compares nothing but that
+		root := c.Roots[0]
+		if root == "link" {
+			root = ""
+		}
+		c.Steps = append(c.Steps, IXStep{K: "add", P: filepath.Join(root, "keep", "keeper.ttf"), Font: kernel.Pick(rg, ixFonts)})
+	}
 	for i := rk.Range(1, 5); i > 0; i-- {
 		c.Steps = append(c.Steps, add())
 	}
@@ -174,11 +183,11 @@ func (e *ixEngine) Generate(seed uint64, tier string, run int) (json.RawMessage,
 		case 7:
 			switch rg.Intn(3) {
 			case 0:
-				c.Steps = append(c.Steps, IXStep{K: "symlink", P: "link", P2: kernel.Pick(rg, ixDirs[1:])})
+				c.Steps = append(c.Steps, IXStep{K: "symlink", P: "link", P2: kernel.Pick(rg, ixDirs[1:]), N: rg.Intn(5)})
 			case 1:
-				c.Steps = append(c.Steps, IXStep{K: "symlink", P: filepath.Join(kernel.Pick(rg, ixDirs), "l.ttf"), P2: someFile()})
+				c.Steps = append(c.Steps, IXStep{K: "symlink", P: filepath.Join(kernel.Pick(rg, ixDirs), "l.ttf"), P2: someFile(), N: rg.Intn(5)})
 			default:
-				c.Steps = append(c.Steps, IXStep{K: "symlink", P: filepath.Join(kernel.Pick(rg, ixDirs), "dirlink"), P2: kernel.Pick(rg, ixDirs[1:])})
+				c.Steps = append(c.Steps, IXStep{K: "symlink", P: filepath.Join(kernel.Pick(rg, ixDirs), "dirlink"), P2: kernel.Pick(rg, ixDirs[1:]), N: rg.Intn(5)})
 			}
 		case 8:
 			c.Steps = append(c.Steps, IXStep{K: "boot"})
@@ -533,6 +542,11 @@ func (w *ixWorld) step(st *IXStep, roots []string) (*kernel.Violation, error) {
 		}
 	case "symlink":
 		p := w.abs(st.P)
+		if _, err := os.Stat(w.abs(st.P2)); err != nil && st.N%5 != 0 {
+			// a dangling link makes every later scan fail as a whole (in both modes): kept in a
+			// fifth of the cases only, so that most histories go on comparing indexes
+			break
+		}
 		if _, err := os.Lstat(p); err != nil {
 			if os.MkdirAll(filepath.Dir(p), 0o755) == nil {
 				target := filepath.Join(w.dir, w.abs(st.P2)) // absolute target; only the link's own path reaches the index
@@ -765,6 +779,16 @@ func (w *ixWorld) boot(roots []string, crash *IXStep) (*kernel.Violation, error)
 	}
 	if berr != nil {
 		w.out.Count("probe.boot_error_in_both_modes", 1)
+		switch msg := berr.Error(); {
+		case strings.Contains(msg, "no valid font"):
+			w.out.Count("boot_error.no_valid_font", 1)
+		case strings.Contains(msg, "no such file"):
+			w.out.Count("boot_error.dangling_path", 1)
+		case strings.Contains(msg, "too many levels") || strings.Contains(msg, "loop"):
+			w.out.Count("boot_error.symlink_loop", 1)
+		default:
+			w.out.Count("boot_error.other", 1)
+		}
 		w.log("boot error")
 		return nil, nil
 	}
